@@ -234,7 +234,7 @@ func hexArms(c *core.Ctx, info *types.Info, esc *ast.FuncDecl, deflt *ast.CaseCl
 	analyzeRun := func(stmts []ast.Stmt, lo, hi int64) {
 		// find prefix literal + padding idiom in this straight-line run
 		prefix := ""
-		padTo := 0     // strings.Repeat("0", W-len(s))
+		padTo := 0      // strings.Repeat("0", W-len(s))
 		padOne := false // if len(s) == 1 { write '0' }
 		raw := false
 		var pos token.Pos
